@@ -22,7 +22,8 @@ TEnd == More /\ Ev.e = "End" /\ Consume
 NeedLin == More /\ Ev.e \in {"MRet", "Enter"} /\
            (IF Ev.e = "MRet" THEN ~pend[Ev.t].done ELSE TRUE)
 TLin == More /\ Ev.e = "MRet" /\ ~pend[Ev.t].done /\ UNCHANGED l /\ \E t \in Threads : Lin(t)
-TNext == TReset \/ TMutex \/ TCall \/ TRet \/ TEnter \/ TLeave \/ TEnd \/ TLin
+TNest == More /\ Ev.e = "MNest" /\ Consume /\ Nest(Ev.t, Ev.n)
+TNext == TNest \/ TReset \/ TMutex \/ TCall \/ TRet \/ TEnter \/ TLeave \/ TEnd \/ TLin
 TSpec == TInit /\ [][TNext]_tvars
 NotAccepted == l <= Len(TraceLog)
 TrackMax == TLCSet(1, IF TLCGet(1) < l THEN l ELSE TLCGet(1))
